@@ -195,9 +195,17 @@ structure DelegationV where
   shares : Dec
   deriving DecidableEq, Repr, Inhabited
 
+/-- number of unbonding-delegation entries of a (delegator, validator) pair (x/staking caps it at MaxEntries) -/
+structure UnbondingV where
+  del : Addr
+  val : ValAddr
+  entries : Nat
+  deriving DecidableEq, Repr, Inhabited
+
 structure StakingView where
   validators : List ValidatorV
   delegations : List DelegationV
+  unbonding : List UnbondingV := []
   deriving DecidableEq, Repr, Inhabited
 
 structure DidEntry where
